@@ -161,7 +161,10 @@ GenesisRegistry(flags, wl, sp) ==
       r3 == MechSetMeta(r2.R, B32, MetaRec("bech32", "none", "nBech32", "none", -1, FALSE), TRUE, TRUE)
   IN [ok |-> r1.ok /\ r2.ok /\ r3.ok, R |-> r3.R]
 
-(* NewEVM: every stored contract is wired in with its disabled flag; the interpreter refuses disabled ones *)
+(* NewEVM: every stored contract is wired in with its disabled flag; the interpreter refuses disabled ones.
+   The wiring is a function of the registry (metadata, disabled flag) and of NOTHING else: not of the message, not of the
+   execution mode, not of the bank supply of an ERC-20's denomination (supplyPos matters at deployment only; SupplyFlip
+   after a deployment leaves Exposure unchanged - checked by ExposureExact in every state reached through SupplyFlip). *)
 MechWired(R) == [a \in DOMAIN R.meta |-> R.meta[a].disabled]
 MechCall(R, a) == LET wired == MechWired(R) IN IF a \notin DOMAIN wired THEN "absent" ELSE IF wired[a] THEN "refused" ELSE "runs"
 (* the fork's RunPrecompiledContract / RunCustom: disabled -> error; fewer than 4 bytes -> revert; no method with that
